@@ -471,6 +471,9 @@ def build_cycle_loader(pair, org, delay_kind, rng, swap, wait_delay=None):
     a.db(0x3E, 0x0F, 0xD3, 0xFE)
     if maskreg:
         a.db(0x06 + 8 * R8[maskreg], 0x40)
+    if wait_delay:
+        # before the search for the pilot tone (a delay after it would make the next, partial cycle look like the sync pulses)
+        boundary_delay(a, wait_delay, 'w')
     npil = rng.choice([0x10, 0x30])
     a.label('PILOT')
     a.db(0x06 + 8 * byt, npil)               # LD byt,npil
@@ -481,8 +484,6 @@ def build_cycle_loader(pair, org, delay_kind, rng, swap, wait_delay=None):
     a.jr(0x30, 'PILOT')
     a.db(0x05 + 8 * byt)
     a.jr(0x20, 'P1')
-    if wait_delay:
-        boundary_delay(a, wait_delay, 'w')     # the pilot tone is still playing here
     a.label('SYNC')
     a.db(0x06 + 8 * ctr, 0x00)
     a.jp(0xCD, 'CYCLE')
